@@ -36,13 +36,14 @@ type GenOpts struct {
 	NamedVoid        bool // initializer functions registered with a name (resolvable as a keyed empty struct)
 	SliceSvc         bool // services whose own type is the unnamed slice type []I0 (plain or named), next to groups over I0
 	Ghosts           bool // registrations that are added and removed again while the collection is assembled
+	GroupBridge      bool // a consumer -> group -> member -> chain of singletons family whose only ordering path runs through the group
 	SigTwins         bool // a second registration with the very signature of another one (shared analysis), other lifetime, other group/name
 	PreBuild         bool // the collection is built (and the provider used and closed) once before all registrations are in
 }
 
 func FullOpts() GenOpts {
 	return GenOpts{MinRegs: 1, MaxRegs: 9, Multi: true, Out: true, OutGroupFields: true, Instance: true, Void: true, As: true, MultiAs: true,
-		Groups: true, Keys: true, MultiGroup: true, OptionalMissing: true, Builtins: true, Err: true, Iface: true, MaxDeps: 3, NilOuts: true, AltImpl: true, Drops: true, PreBuild: true, NamedVoid: true, VoidAnyLife: true, EmbedIn: true, SliceSvc: true, Ghosts: true, SigTwins: true}
+		Groups: true, Keys: true, MultiGroup: true, OptionalMissing: true, Builtins: true, Err: true, Iface: true, MaxDeps: 3, NilOuts: true, AltImpl: true, Drops: true, PreBuild: true, NamedVoid: true, VoidAnyLife: true, EmbedIn: true, SliceSvc: true, Ghosts: true, SigTwins: true, GroupBridge: true}
 }
 
 // NeverType is a concrete type id that generated configurations never provide.
@@ -434,6 +435,9 @@ func GenConfig(t *rapid.T, o GenOpts) *Config {
 			regs = append(regs, tw)
 		}
 	}
+	if o.GroupBridge && rapid.IntRange(0, 7).Draw(t, "bridge") == 0 {
+		regs = append(regs, genGroupBridge(t, regs)...)
+	}
 	if o.EmbedIn {
 		genEmbeds(t, regs)
 	}
@@ -770,4 +774,67 @@ func genDrops(t *rapid.T, regs []Reg) []Reg {
 		}
 	}
 	return append(regs, again...)
+}
+
+// genGroupBridge appends a small family under fresh identities: a chain of
+// 1-3 services X0 <- X1 <- .., a member M of a fresh group that depends on the
+// end of the chain, and a consumer S of that group (through a group field or a
+// slice parameter). The only path from S to the chain runs through the group
+// and its member, whatever the member's lifetime is: Build has to order the
+// chain before S, and resolution has to wire it, through that path alone.
+func genGroupBridge(t *rapid.T, regs []Reg) []Reg {
+	nextID := 0
+	for _, r := range regs {
+		if r.ID >= nextID {
+			nextID = r.ID + 1
+		}
+	}
+	consumerLife := rapid.IntRange(0, 2).Draw(t, "bridgeConsumerLife")
+	memberLife := rapid.IntRange(0, 2).Draw(t, "bridgeMemberLife")
+	if consumerLife != Scoped && memberLife == Scoped {
+		memberLife = Transient
+	}
+	depth := rapid.IntRange(1, 3).Draw(t, "bridgeDepth")
+	var out []Reg
+	var prev *DepSpec
+	for i := 0; i < depth; i++ {
+		life := Singleton
+		if memberLife == Scoped && rapid.Bool().Draw(t, "bridgeChainScoped") {
+			life = Scoped
+		}
+		if prev != nil && life == Singleton {
+			// a singleton link cannot follow a scoped one
+			for _, r := range out {
+				if r.Life == Scoped {
+					life = Scoped
+				}
+			}
+		}
+		ty := rapid.IntRange(0, NeverType-1).Draw(t, "bridgeT")
+		r := Reg{ID: nextID, Life: life, Form: FormPlain, Outs: []OutSpec{{T: ty, Impl: ty}}, Name: fmt.Sprintf("br%d", i), HasErr: rapid.Bool().Draw(t, "bridgeErr")}
+		nextID++
+		if prev != nil {
+			r.Deps = []DepSpec{*prev}
+			r.UseIn = true
+		}
+		prev = &DepSpec{T: ty, Key: r.Name}
+		out = append(out, r)
+	}
+	mt := rapid.IntRange(0, NeverType-1).Draw(t, "bridgeMemberT")
+	nm := rapid.IntRange(1, 2).Draw(t, "bridgeMembers")
+	for k := 0; k < nm; k++ {
+		m := Reg{ID: nextID, Life: memberLife, Form: FormPlain, Outs: []OutSpec{{T: mt, Impl: mt}}, Group: "br", UseIn: true}
+		nextID++
+		if k == 0 {
+			m.Deps = []DepSpec{*prev}
+		} else {
+			m.UseIn = false
+		}
+		out = append(out, m)
+	}
+	ct := rapid.IntRange(0, NeverType-1).Draw(t, "bridgeConsumerT")
+	c := Reg{ID: nextID, Life: consumerLife, Form: FormPlain, Outs: []OutSpec{{T: ct, Impl: ct}}, Name: "brc",
+		Deps: []DepSpec{{T: mt, Group: "br"}}, UseIn: true}
+	out = append(out, c)
+	return out
 }
